@@ -19,7 +19,8 @@ package engine
 //@   ensures forall i int :: 0 <= i && i < len(result) ==> result[i] == rows[offset + i]
 
 //@ func parseSQL(q string) (interface{}, error)
-//@   props C09
+//@   props C09 C18
+//@   ensures[wf; C18] err == nil ==> sql.stmtWF(result0)
 //@   loop 1 invariant tl.tokens == nil || fresh(tl.tokens)
 
 // ---- rows / fields shape (backbone of C18, C06) ----
@@ -171,17 +172,9 @@ package engine
 //@   requires txn == 0
 //@   modifies storeState
 
-// ---- well-formedness of statements produced by the parser (abstract; unfolded by axioms) ----
-
-//@ spec abstract tfWF(tf any)
-//@ axiom tfWF.table: forall tf any :: tfWF(tf) && typeof(tf) == typ(sql.TableName) ==>
-//@        (tf.(sql.TableName).CorrelationName == nil || typeof(tf.(sql.TableName).CorrelationName) == typ(string))
-//@ axiom tfWF.join: forall tf any :: tfWF(tf) && typeof(tf) == typ(sql.QualifiedJoin) ==>
-//@        tfWF(tf.(sql.QualifiedJoin).LHS) && tfWF(tf.(sql.QualifiedJoin).RHS)
-
 //@ func nestedLoopJoin(rm RelationManager, tf sql.TableReference) ([]*storage.Row, storage.Fields, error)
 //@   props C06 C18
-//@   requires txn == 1 && rm != nil && tfWF(tf)
+//@   requires txn == 1 && rm != nil && sql.tfWF(tf)
 //@   modifies storeState
 //@   ensures[txn; C13] txn == 1
 //@   ensures[shape; C06 C18] err == nil ==> storage.fieldsOK(result1) && rowsFit(result1, result0)
@@ -210,8 +203,7 @@ package engine
 // ---- projection, aggregation, sorting (C05 C07 C18) ----
 
 //@ spec func vep(sl sql.SelectList, i int) any { sl[i].ValueExpressionPrimary }
-//@ spec pred avgArgsOK(sl sql.SelectList) { forall i int :: 0 <= i && i < len(sl) && typeof(vep(sl,i)) == typ(sql.Average) ==>
-//@        typeof(vep(sl,i).(sql.Average).ValueExpression) == typ(sql.ColumnReference) }
+//@ spec pred avgArgsOK(sl sql.SelectList) { sql.avgArgsOK(sl) }
 //@ spec pred lookupOK(lookup map[sql.ColumnReference]int, n int) { forall k sql.ColumnReference :: has(lookup, k) ==> 0 <= lookup[k] && lookup[k] < n }
 //@ spec pred lookedUp(lookup map[sql.ColumnReference]int, sl sql.SelectList, i int) {
 //@        (typeof(vep(sl,i)) == typ(sql.ColumnReference) ==> has(lookup, vep(sl,i).(sql.ColumnReference))) &&
@@ -308,14 +300,10 @@ package engine
 
 // ---- statements (C05 C13 C14 C18) ----
 
-//@ spec pred selWF(q sql.Select) { len(q.SelectList) >= 1 && avgArgsOK(q.SelectList) &&
-//@        (len(q.TableExpression.FromClause) >= 1 ==> tfWF(q.TableExpression.FromClause[0])) &&
-//@        (q.TableExpression.WhereClause == nil || typeof(q.TableExpression.WhereClause) == typ(sql.WhereClause)) &&
-//@        q.LimitOffsetClause.Limit >= 0 && q.LimitOffsetClause.Offset >= 0 }
 
 //@ func EvaluateSelect(q sql.Select, rm RelationManager) ([]*storage.Row, []*storage.Field, error)
 //@   props C05 C13 C18
-//@   requires txn == 0 && rm != nil && selWF(q)
+//@   requires txn == 0 && rm != nil && sql.selWF(q)
 //@   modifies txn, storeState, all(storage.Row.Vals), all(storage.Field.Column), allelems(any), allelems(*storage.Row)
 //@   ensures[unlock; C13 C18] txn == 0
 
